@@ -25,9 +25,26 @@ type SpecEnv struct {
 	held        map[string]bool // mutexes held at the evaluation point (nil: assume context)
 	qvars       map[string]bool // SMT names of quantifier variables in scope
 	pats        []Term          // candidate triggers: (select a v) with v a quantifier variable
+	qterms      []Term          // the loaded terms the facts in qfacts speak about (same order)
 	qfacts      []Term          // integer-range facts of heap loads that mention a bound variable (see field, quant)
 	qdecls      []string        // declarations of the quantifier variables bound since the outermost quantifier
 	errs        []string
+	reachT      Term // path condition of the evaluation point, when it is not that of fr/block
+}
+
+// pathCond is the path condition under which facts about values loaded while evaluating this
+// expression are stated: typing facts about what the heap holds must not leak to other paths (on another
+// path the same heap version may be written with a value the code never produces there).
+func (env *SpecEnv) pathCond() Term {
+	if env.reachT != "" {
+		return env.reachT
+	}
+	if env.fr != nil && env.block != nil {
+		if r, ok := env.fr.reach[env.block]; ok && r != "" {
+			return r
+		}
+	}
+	return "true"
 }
 
 type specErr string
@@ -208,9 +225,9 @@ func (env *SpecEnv) quant(x *Quant) *Val {
 	env.qvars[q(vname)] = true
 	savedPats := env.pats
 	env.pats = nil
-	savedFacts := env.qfacts
+	savedFacts, savedTerms := env.qfacts, env.qterms
 	if len(env.qvars) == 1 {
-		env.qfacts = nil
+		env.qfacts, env.qterms = nil, nil
 	}
 	body := vc.term(env.eval(x.Body))
 	pats := env.pats
@@ -220,18 +237,33 @@ func (env *SpecEnv) quant(x *Quant) *Val {
 	// universally quantified heap-typing axiom over all variables bound inside it
 	env.qdecls = append(env.qdecls, fmt.Sprintf("(%s %s)", q(vname), sortS))
 	if len(env.qvars) == 1 {
-		if len(env.qfacts) > 0 {
-			seenFact := map[Term]bool{}
-			var fs []Term
-			for _, f := range env.qfacts {
-				if !seenFact[f] {
-					seenFact[f] = true
-					fs = append(fs, f)
+		// one axiom per loaded term, over the bound variables that term mentions, triggered by the term
+		// itself; an axiom already stated for the same path condition is not repeated
+		for i, f := range env.qfacts {
+			var ds []string
+			for _, d := range env.qdecls {
+				name := strings.TrimPrefix(strings.SplitN(d, " ", 2)[0], "(")
+				if strings.Contains(f, name) {
+					ds = append(ds, d)
 				}
 			}
-			vc.S.Assert(fmt.Sprintf("(forall (%s) %s)", strings.Join(env.qdecls, " "), and(fs...)))
+			if len(ds) == 0 {
+				continue
+			}
+			body := f
+			if patternOK(env.qterms[i]) {
+				body = fmt.Sprintf("(! %s :pattern (%s))", f, env.qterms[i])
+			}
+			ax := implies(env.pathCond(), fmt.Sprintf("(forall (%s) %s)", strings.Join(ds, " "), body))
+			if vc.qaxSeen == nil {
+				vc.qaxSeen = map[string]bool{}
+			}
+			if !vc.qaxSeen[ax] {
+				vc.qaxSeen[ax] = true
+				vc.S.Assert(ax)
+			}
 		}
-		env.qfacts, env.qdecls = savedFacts, nil
+		env.qfacts, env.qterms, env.qdecls = savedFacts, savedTerms, nil
 	}
 	delete(env.qvars, q(vname))
 	if had {
@@ -408,6 +440,18 @@ func (env *SpecEnv) tryLookup(name string) (*Val, bool) {
 		if gv, ok := env.fr.vc.P.CS.GhostVars[name]; ok {
 			return &Val{T: env.curHeap().Get(env.fr.vc.ghostVarHeap(gv)), Typ: env.fr.vc.ghostVarType(gv)}, true
 		}
+		if env.fr.c != nil {
+			for _, lls := range env.fr.c.LoopLets {
+				for _, ll := range lls {
+					if ll.Name == name {
+						if proto, ok := env.fr.vc.letTypes[name]; ok {
+							return &Val{T: env.fr.vc.S.FreshConst("unbound."+name, env.fr.vc.sortOfVal(proto)), Typ: proto.Typ}, true
+						}
+						return &Val{T: env.fr.vc.S.FreshConst("unbound."+name, "Bool"), Typ: types.Typ[types.Bool]}, true
+					}
+				}
+			}
+		}
 		if v := env.fr.lookupLocal(name, env.block, env.idx, env.curHeap(), env.inOld || env.entryParams); v != nil {
 			return v, true
 		}
@@ -531,7 +575,7 @@ func (env *SpecEnv) field(v *Val, idx int) *Val {
 		// (a term that mentions a bound quantifier variable cannot be asserted at top level)
 		if r.Typ != nil && r.T != "" && !env.mentionsQvar(r.T) {
 			if rf := vc.rangeFact(r.T, r.Typ, 0); rf != "true" && len(rf) < 4000 {
-				vc.S.Assert(rf)
+				vc.S.Assert(implies(env.pathCond(), rf))
 			}
 		} else if r.Typ != nil && r.T != "" {
 			// under a quantifier the integer range of the loaded value becomes a hypothesis of the
@@ -539,6 +583,7 @@ func (env *SpecEnv) field(v *Val, idx int) *Val {
 			if _, _, isInt := intRange(r.Typ); isInt {
 				if rf := vc.rangeFact(r.T, r.Typ, 0); rf != "true" && len(rf) < 6000 {
 					env.qfacts = append(env.qfacts, rf)
+					env.qterms = append(env.qterms, r.T)
 				}
 			}
 		}
@@ -760,6 +805,21 @@ func (env *SpecEnv) call(x *CallE) *Val {
 			return boolVal("true")
 		}
 		return boolVal(heldFormula(env.held, mv.P.Heap, mv.P.Ref))
+	case "preserved":
+		// preserved(s): every backing array of s's element type that existed in the pre-state still holds
+		// what it held then (a frame fact a loop invariant can carry across the head's havoc)
+		argn(1)
+		if env.old == nil {
+			env.fail("preserved() needs a pre-state")
+		}
+		sv := env.eval(x.Args[0])
+		st, isSl := sv.Typ.Underlying().(*types.Slice)
+		if !isSl {
+			env.fail("preserved(s) expects a slice (it speaks about all backing arrays of s's element type)")
+		}
+		mn := vc.memName(st.Elem())
+		cur, pre := env.curHeap().Get(mn), env.old.Get(mn)
+		return boolVal(fmt.Sprintf("(forall ((r!p Int)) (! (=> (select %s r!p) (= (select %s r!p) (select %s r!p))) :pattern ((select %s r!p))))", env.old.Get("$alloc"), cur, pre, cur))
 	case "fresh":
 		// fresh(x): the object (or backing array) x, evaluated in the current state, did not exist in the pre-state
 		argn(1)
@@ -930,10 +990,10 @@ func (env *SpecEnv) wfRef(r *Val, h *Heap) {
 	}
 	switch r.Typ.Underlying().(type) {
 	case *types.Pointer, *types.Map:
-		vc.S.Assert(or(eq(r.T, "0"), sel(h.Get("$alloc"), r.T)))
+		vc.S.Assert(implies(env.pathCond(), or(eq(r.T, "0"), sel(h.Get("$alloc"), r.T))))
 	case *types.Slice:
 		b := vc.slice(r).Base
-		vc.S.Assert(or(eq(b, "0"), sel(h.Get("$alloc"), b)))
+		vc.S.Assert(implies(env.pathCond(), or(eq(b, "0"), sel(h.Get("$alloc"), b))))
 	}
 }
 
@@ -1210,6 +1270,9 @@ func (fr *Frame) lookupLocal(name string, b *ssa.BasicBlock, idx int, h *Heap, o
 // calleeEnv binds a contract's parameter names to the call's argument values.
 func (vc *VC) calleeEnv(fr *Frame, c *Contract, callee *ssa.Function, cc *ssa.CallCommon, args []*Val) *SpecEnv {
 	env := &SpecEnv{vc: vc, bound: map[string]*Val{}, names: map[string]*Val{}, pkg: c.Pkg}
+	if fr != nil {
+		env.reachT = fr.here()
+	}
 	names := vc.paramNames(c, callee, cc)
 	for i, n := range names {
 		if i < len(args) && n != "" && n != "_" {
@@ -1428,4 +1491,15 @@ func (env *SpecEnv) modNames(e Expr) (names []string) {
 		names = append(names, l.Heap)
 	}
 	return
+}
+
+// patternOK: a term can serve as a quantifier trigger only if it contains no logical connective or
+// relation (the solvers reject those inside patterns).
+func patternOK(t Term) bool {
+	for _, bad := range []string{"(ite ", "(and ", "(or ", "(not ", "(=> ", "(= ", "(<= ", "(< ", "(>= ", "(> ", "(forall", "(exists", "(let ", "(distinct "} {
+		if strings.Contains(t, bad) {
+			return false
+		}
+	}
+	return true
 }
